@@ -682,6 +682,14 @@ impl Hist {
                 start_anchor != self.model.anchor
             ));
             ctx.cov.eval(Some(fpv));
+            if ctx.cov.samples.len() < 4 && start_anchor != self.model.anchor && self.model.leaf_paths().len() > 1 {
+                ctx.cov.sample(json!({"net": gen::net_name(self.cfg.net), "threshold": self.model.threshold,
+                    "tree_after_advance_(relheight,difficulty)": format!("{:?}", self.shape_sig()),
+                    "stable_height": self.model.stable_height(), "last_events": self.log.iter().rev().take(4).collect::<Vec<_>>()}));
+            } else if ctx.cov.samples.is_empty() {
+                ctx.cov.sample(json!({"net": gen::net_name(self.cfg.net), "threshold": self.model.threshold,
+                    "tree_(relheight,difficulty)": format!("{:?}", self.shape_sig()), "advanced": start_anchor != self.model.anchor}));
+            }
         }
         true
     }
